@@ -82,22 +82,23 @@ def folder(manifest):
     src = hv.Source("xcmp.hpp", manifest)
     a, e = src.anchor(r"class ConstProp : public AstVisitor \{")
     bb, _, _ = src.block_after(r"void visitPost\(BinaryOpExpr &expr\) \{", "ConstProp::visitPost(BinaryOpExpr)", start=e, unique=False)
-    m = re.search(r"int result;\s*switch \(expr\.getOp\(\)\) \{", bb)
+    m = re.search(r"int (\w+);\s*switch \(expr\.getOp\(\)\) \{", bb)   # the local's name is free
     if not m or not re.search(r"if \(LHS->isConst\(\) && RHS->isConst\(\)\) \{", bb):
         raise hv.ExtractionError("ConstProp(BinaryOpExpr): folding switch not found")
     lb = m.end() - 1
     rb = hv.match_close(bb, lb)
+    res = m.group(1)
     sw = hv.rewrite(bb[lb:rb + 1], [
         (r"LHS->getValue\(\)", "l", 10), (r"RHS->getValue\(\)", "r", 10), (r"\bToken::(\w+)", r"XT_\1", 10),
         (r"throw SemanticTokenError\([^;]*\);", "{ VERIF_THROW(0); return 0; }", 1, 1),
     ], "fold_bin", manifest)
     after = hv.strip_comments(bb[rb + 1:]).strip()
-    if not after.startswith("expr.setValue(result);"):
-        raise hv.ExtractionError("ConstProp(BinaryOpExpr): expected expr.setValue(result) after the switch")
+    if not after.startswith("expr.setValue(%s);" % res):
+        raise hv.ExtractionError("ConstProp(BinaryOpExpr): expected expr.setValue(%s) after the switch" % res)
     hv.leftover_check(sw, "fold_bin")
-    out = "static int fold_bin(XToken op, int l, int r) {\n  int result;\n  switch (op) " + sw + "\n  return result;\n}\n"
+    out = "static int fold_bin(XToken op, int l, int r) {\n  int %s;\n  switch (op) %s\n  return %s;\n}\n" % (res, sw, res)
     ub, _, _ = src.block_after(r"void visitPost\(UnaryOpExpr &expr\) \{", "ConstProp::visitPost(UnaryOpExpr)", start=e, unique=False)
-    m = re.search(r"int result;\s*switch \(expr\.getOp\(\)\) \{", ub)
+    m = re.search(r"int (\w+);\s*switch \(expr\.getOp\(\)\) \{", ub)
     if not m:
         raise hv.ExtractionError("ConstProp(UnaryOpExpr): folding switch not found")
     lb = m.end() - 1
@@ -107,7 +108,10 @@ def folder(manifest):
         (r"throw SemanticTokenError\([^;]*\);", "{ VERIF_THROW(0); return 0; }", 1, 1),
     ], "fold_un", manifest)
     hv.leftover_check(sw, "fold_un")
-    out += "static int fold_un(XToken op, int e) {\n  int result;\n  switch (op) " + sw + "\n  return result;\n}\n"
+    after = hv.strip_comments(ub[rb + 1:]).strip()
+    if not after.startswith("expr.setValue(%s);" % m.group(1)):
+        raise hv.ExtractionError("ConstProp(UnaryOpExpr): expected expr.setValue(%s) after the switch" % m.group(1))
+    out += "static int fold_un(XToken op, int e) {\n  int %s;\n  switch (op) %s\n  return %s;\n}\n" % (m.group(1), sw, m.group(1))
     return out
 
 
